@@ -80,3 +80,99 @@ Theorem C09_restamp_spec :
     (dic_of u <> 0 -> dic_of (restamp d u) = d /\ word_of (restamp d u) = word_of u).
 Proof. exact (fun d u => restamp_spec d u C09_facts). Qed.
 Print Assumptions C09_restamp_spec.
+
+(* ---------------------------------------------------------------------------------------------------------------
+   Composition with the C05 codec model (Proofs/SplitDict.v): the hypotheses of the theorems above, derived from what a
+   dictionary author writes.  ds = the stack of lexicon sources (rows: key = column 0, headword, POS, reading, split
+   columns as written), cs = the compiled files, stack_compiled ds cs = each dictionary is what DictBuilder::resolve and
+   the lexicon writer make of its rows (user dictionaries resolved against the system dictionary), srcs_ok ds = the
+   rows are as the CSV reader builds them (written length = surface.len()) and no dictionary has 2^28 words.
+   ld_hw / ld_units = head_word_length / unit lists the loaded LexiconSet reports. *)
+From SudachiVerif Require Import Model.Codec Proofs.CodecProofs Model.CodecResolve Model.SplitSource Proofs.SplitDict.
+From SudachiVerif Require Generated.FieldOrder.
+
+(* fact obligations of the codec model, on the facts regenerated on this run *)
+Fact C09_writer_order : Generated.FieldOrder.writer_fields = expected_writer.
+Proof. vm_compute. reflexivity. Qed.
+Fact C09_reader_order : reader_facts_ok.
+Proof. split; vm_compute; reflexivity. Qed.
+Fact C09_len_thresholds : len_thresholds_ok = true.
+Proof. vm_compute. reflexivity. Qed.
+
+(* head_word_length of every loaded word = UTF-8 length of its key, for every stack of dictionaries the writer accepts;
+   the writer accepts a key only up to len_max (= i16::MAX) bytes: a longer one is a build error, never a truncation *)
+Theorem C09_head_word_length_is_key_length :
+  forall ds cs nsp po w r,
+    stack_compiled ds cs -> srcs_ok ds ->
+    src_row ds w = Some r ->
+    ld_hw cs nsp po w = utf8_len (r_surface r) /\ utf8_len (r_surface r) <= Generated.FieldOrder.len_max.
+Proof.
+  exact (fun ds cs nsp po w r Hc Hs =>
+           head_word_length_is_key_length C09_writer_order C09_reader_order C09_len_thresholds ds cs Hc Hs nsp po w r).
+Qed.
+Print Assumptions C09_head_word_length_is_key_length.
+
+(* the unit lists the loaded dictionary reports are the declared ones: resolved as DictBuilder::resolve does (own rows
+   first, then the system dictionary) and stamped with the dictionary the word was read from *)
+Theorem C09_loaded_units_are_source_units :
+  forall ds cs nsp po a w r,
+    stack_compiled ds cs ->
+    src_row ds w = Some r -> src_units ds a w = Some (ld_units cs nsp po a w).
+Proof.
+  exact (fun ds cs nsp po a w r Hc =>
+           loaded_units_are_source_units C09_writer_order C09_reader_order C09_len_thresholds ds cs Hc nsp po a w r).
+Qed.
+Print Assumptions C09_loaded_units_are_source_units.
+
+(* if, in the rows, the keys of the declared units concatenate to the key of the word (rows_units_ok, a boolean computed
+   from the rows alone), the loaded dictionary satisfies units_wf and head_word_length = key length for every unit *)
+Theorem C09_units_wf_of_rows :
+  forall ds cs nsp po a t n,
+    stack_compiled ds cs -> srcs_ok ds ->
+    rows_units_ok ds a (wid n) = true ->
+    covers t n (src_key ds (wid n)) ->
+    units_wf (src_key ds) t n (ld_units cs nsp po a (wid n)) /\
+    (forall u, In u (ld_units cs nsp po a (wid n)) -> ld_hw cs nsp po u = blen (src_key ds u)).
+Proof.
+  exact (fun ds cs nsp po a t n Hc Hs =>
+           units_wf_of_rows C09_writer_order C09_reader_order C09_len_thresholds ds cs Hc Hs nsp po a t n).
+Qed.
+Print Assumptions C09_units_wf_of_rows.
+
+(* corollary: with that source-level condition, splitting a C-mode token that covers its word's key yields exactly the
+   declared units in order, without panic, tiling the parent's char and byte range, each covering its unit's key *)
+Theorem C09_split_exact_from_source :
+  forall ds cs nsp po a t n us,
+    stack_compiled ds cs -> srcs_ok ds ->
+    rows_units_ok ds a (wid n) = true ->
+    covers t n (src_key ds (wid n)) ->
+    src_units ds a (wid n) = Some us -> us <> [] ->
+    ld_units cs nsp po a (wid n) = us /\
+    exists subs,
+      split_node (ld_hw cs nsp po) t n us = Some subs /\
+      map wid subs = us /\
+      tiles (nb n) (bb n) (ne n) (be n) subs /\
+      Forall2 (fun s u => slice t (nb s) (ne s) = src_key ds u) subs us.
+Proof.
+  exact (fun ds cs nsp po a t n us Hc Hs =>
+           split_exact_from_source C09_writer_order C09_reader_order C09_len_thresholds ds cs Hc Hs nsp po a t n us).
+Qed.
+Print Assumptions C09_split_exact_from_source.
+
+(* ... and through MorphemeList::split_into *)
+Theorem C09_split_into_exact_from_source :
+  forall ds cs nsp po a t n us out,
+    stack_compiled ds cs -> srcs_ok ds ->
+    rows_units_ok ds a (wid n) = true ->
+    covers t n (src_key ds (wid n)) ->
+    src_units ds a (wid n) = Some us -> us <> [] ->
+    exists subs,
+      split_into (ld_hw cs nsp po) t (ld_units cs nsp po a) n out = Some (true, out ++ subs) /\
+      map wid subs = us /\
+      tiles (nb n) (bb n) (ne n) (be n) subs /\
+      Forall2 (fun s u => slice t (nb s) (ne s) = src_key ds u) subs us.
+Proof.
+  exact (fun ds cs nsp po a t n us out Hc Hs =>
+           split_into_exact_from_source C09_writer_order C09_reader_order C09_len_thresholds C09_facts ds cs nsp po Hc Hs a t n us out).
+Qed.
+Print Assumptions C09_split_into_exact_from_source.
